@@ -555,8 +555,10 @@ func checkIn(check string) func(c progCase) (fw.Outcome, *fw.Violation) {
 			}
 		}
 		switch {
+		case maxN >= 1200:
+			o.Classes = append(o.Classes, "rows:1200+")
 		case maxN >= 640:
-			o.Classes = append(o.Classes, "rows:640+")
+			o.Classes = append(o.Classes, "rows:640-1199")
 		case maxN >= 341:
 			o.Classes = append(o.Classes, "rows:341-639")
 		case maxN >= 160:
@@ -678,7 +680,7 @@ func avoidNote() string {
 	return fmt.Sprintf("generator keeps away from reported defects while these are true: avoidKnownLoaderPosRace=%v (eval, cancel and sessions then use temporary tables only; the load_* checks always read files), avoidKnownSubqueryFileInfoWrite=%v (statements with a FROM-subquery are the last ones of their program), avoidKnownSharedRandInLockNames=%v (the sessions check reads no files)", avoidKnownLoaderPosRace, avoidKnownSubqueryFileInfoWrite, avoidKnownSharedRandInLockNames)
 }
 
-const commonRule = "tables t1,t2 (160-900 rows: 60% up to 340, 25% up to 500, 15% 640-900; files > 300 records) and t3 (5-40 rows) with columns id,k,g,v,s,d,j computed from a recipe (moduli, NULL period), as temporary tables or files; session with cpu 8-16; statements are executed in a worker process built with -race and every race report of the Go race detector (GORACE log_path) is a violation with signature race:<locA>|<locB> (top csvq frames of the two accesses as file:Function+line offset); non-trivial = query.VerifParallelTasks grew during the statements or a file with >= 2 records was loaded, no unexpected statement error; distinct by (mode, operator labels, formats, failure site:kind, cancel outcome, sessions)"
+const commonRule = "tables t1,t2 (160-2400 rows: 53% up to 340, 24% up to 500, 18% 640-900, 5% 1200-2000; files > 300 records) and t3 (5-40 rows) with columns id,k,g,v,s,d,j computed from a recipe (moduli, NULL period), as temporary tables or files; session with cpu 8-16; statements are executed in a worker process built with -race and every race report of the Go race detector (GORACE log_path) is a violation with signature race:<locA>|<locB> (top csvq frames of the two accesses as file:Function+line offset); non-trivial = query.VerifParallelTasks grew during the statements or a file with >= 2 records was loaded, no unexpected statement error; distinct by (mode, operator labels, formats, failure site:kind, cancel outcome, sessions)"
 
 var commonAssumptions = []string{
 	"the race detector only sees the happens-before relation of executed interleavings: unsynchronised accesses that execute are reported whatever their timing, code that is not reached is not judged",
@@ -698,7 +700,7 @@ func runCheck(t *testing.T, name string, quick, thorough int, gen func(*rapid.T)
 
 func TestC13Eval(t *testing.T) {
 	runCheck(t, "eval", 170, 3400, genEval,
-		"1-3 statements: every built-in function of the manual except CALL (incl. RAND(), RAND(lo,hi), NOW()) and user functions whose bodies use variables, a cursor over a table, SELECT..INTO and an own temporary table, evaluated per row; correlated scalar/EXISTS/IN subqueries in the select list and WHERE with large outer/small inner and small outer/large inner (also two levels, LATERAL with a big inner table); prepared statements executed repeatedly; filter, all join kinds (ON/USING/NATURAL/CROSS/LATERAL, outer), GROUP BY + aggregates (incl. LISTAGG, JSON_AGG, MEDIAN, user aggregate) / HAVING, DISTINCT, UNION/EXCEPT/INTERSECT [ALL], ORDER BY + LIMIT/OFFSET/PERCENT/WITH TIES, analytic functions with frames, FROM subqueries, CTE, correlated and scalar subqueries, user functions, regexp/datetime/json functions, variables and flags, INSERT..SELECT/UPDATE/UPDATE..FROM/DELETE/REPLACE/ALTER ADD")
+		"1-3 statements: every built-in function of the manual except CALL (incl. RAND(), RAND(lo,hi), NOW()) and user functions whose bodies use variables, a cursor over a table, SELECT..INTO and an own temporary table, evaluated per row; correlated scalar/EXISTS/IN subqueries in the select list and WHERE with large outer/small inner and small outer/large inner (also two levels, LATERAL with a big inner table); prepared statements executed repeatedly; filter, all join kinds (ON/USING/NATURAL/CROSS/LATERAL, outer), GROUP BY + aggregates (incl. LISTAGG, JSON_AGG, MEDIAN, user aggregate) / HAVING, half of them with >= 160 groups of several rows (key id % m) and LISTAGG/JSON_AGG .. WITHIN GROUP (ORDER BY <expression>) next to computed select fields, expression keys in PARTITION BY / ORDER BY of analytic functions, DISTINCT, UNION/EXCEPT/INTERSECT [ALL], ORDER BY + LIMIT/OFFSET/PERCENT/WITH TIES, analytic functions with frames, FROM subqueries, CTE, correlated and scalar subqueries, user functions, regexp/datetime/json functions, variables and flags, INSERT..SELECT/UPDATE/UPDATE..FROM/DELETE/REPLACE/ALTER ADD")
 }
 
 func TestC13LoadText(t *testing.T) {
